@@ -202,9 +202,18 @@ def _d_sample(rep):
     from funsor.tensor import Tensor
 
     np.random.seed(rep)
-    t = Tensor(np.log(_arr("logits", (2, 3), rep=rep)), OrderedDict(i=Bint[2], j=Bint[3]))
-    out = [t.sample(frozenset({"i"})), t.sample(frozenset({"i", "j"}), OrderedDict(n=Bint[2])), t.sample(frozenset({"j"}), OrderedDict(n=Bint[3]))]
-    return [t] + out
+    # the log-weights array itself is a tracked user array (sampling must not normalise it in place)
+    k = ("loglogits", (2, 3), rep)
+    if k not in DRIVER_ARRAYS:
+        DRIVER_ARRAYS[k] = np.log(lang.generic_fill(330 + rep, (2, 3), 0))
+    t = Tensor(DRIVER_ARRAYS[k], OrderedDict(i=Bint[2], j=Bint[3]))
+    k3 = ("loglogits3", (2, 3, 2), rep)
+    if k3 not in DRIVER_ARRAYS:
+        DRIVER_ARRAYS[k3] = np.log(lang.generic_fill(331 + rep, (2, 3, 2), 0))
+    t3 = Tensor(DRIVER_ARRAYS[k3], OrderedDict(i=Bint[2], j=Bint[3], k=Bint[2]))
+    out = [t.sample(frozenset({"i"})), t.sample(frozenset({"j"})), t.sample(frozenset({"i", "j"}), OrderedDict(n=Bint[2])), t.sample(frozenset({"j"}), OrderedDict(n=Bint[3])),
+           t3.sample(frozenset({"k"})), t3.sample(frozenset({"i"})), t3.sample(frozenset({"j", "k"})), t3.sample(frozenset({"i", "k"}), OrderedDict(n=Bint[2]))]
+    return [t, t3] + out
 
 
 def _gauss(rep, names=("x", "y")):
@@ -339,8 +348,36 @@ def _d_cat_scatter(rep):
     return [a, b, c, s, st, lam, lam[idx], a(j=idx), ops.cat((lam, lam), -1), ops.stack((lam, lam), 0)]
 
 
+def _d_array_ops(rep):
+    """ops called directly on caller-held arrays (the ops that write must do so on a private copy)."""
+    import numpy as np
+    from funsor import ops
+    from funsor.tensor import Tensor
+
+    d = _arr("ops_destin", (4, 3), rep=rep)
+    src = _arr("ops_source", (2, 3), rep=rep)
+    idx = (np.array([3, 1]),)
+    out = [ops.scatter(d, idx, src), ops.scatter_add(d, idx, src)]
+    x = _arr("ops_x", (3, 2), rep=rep)
+    y = _arr("ops_y", (3, 2), positive=False, rep=rep)
+    for f in (ops.exp, ops.log, ops.sqrt, ops.sigmoid, ops.neg, ops.abs, ops.reciprocal, ops.log1p):
+        out.append(f(x))
+    for f in (ops.add, ops.sub, ops.mul, ops.truediv, ops.logaddexp, ops.max, ops.min, ops.safesub, ops.safediv, ops.pow):
+        out.append(f(x, y if f is not ops.pow else x))
+        out.append(f(x, 2.0))
+        out.append(f(0.5, x))
+    out += [ops.logsumexp(y, 0), ops.logsumexp(y, -1, True), ops.sum(x, 0), ops.amax(x, 1), ops.clamp(y, -0.5, 0.5), ops.permute(x, (1, 0)), ops.expand(x[:1], (3, 2)),
+            ops.cat((x, y), 0), ops.stack((x, y), 0), ops.einsum((x, y), "ab,ab->a"), ops.cholesky(x.T @ x + np.eye(2)), ops.unsqueeze(x, 0), ops.transpose(x, 0, 1)]
+    m = x.T @ x + np.eye(2)
+    DRIVER_ARRAYS.setdefault(("ops_m", (2, 2), rep), m)
+    m = DRIVER_ARRAYS[("ops_m", (2, 2), rep)]
+    out += [ops.cholesky(m), ops.cholesky_inverse(ops.cholesky(m)), ops.triangular_solve(x.T[..., None][:, :2, 0][:2], ops.cholesky(m)), ops.logsumexp(m, None)]
+    return [Tensor(np.asarray(o)) for o in out if hasattr(o, "shape")]
+
+
 DRIVERS = [
     ("sample", _d_sample),
+    ("array_ops", _d_array_ops),
     ("gaussian", _d_gaussian),
     ("adjoint", _d_adjoint),
     ("sum_product", _d_sum_product),
